@@ -277,6 +277,8 @@ def run_requester(initial, more, channel, lenreq, in_on_subscribe=()):
 def correspond(ctx, corr, model_ok):
     corr.oracle_failures.extend(credit_behind_request_oracle())
     corr.count('credit granted while the fragmented request is partly written', 20)
+    corr.oracle_failures.extend(awaitable_credit_oracle())
+    corr.count('AwaitableRSocket: limit_rate = credit in the request frame and every refill (stream and channel)', 24)
     from harness.props import c20
     corr.oracle_failures.extend(c20.credit_oracle())
     corr.count('Rx adapters: configured limit = credit requested from the peer (both sides of streams and channels)', 36)
@@ -398,6 +400,8 @@ def search(ctx, budget_s):
 def replay(obj):
     if 'credit_case' in (obj.get('case') or {}):
         return bool(credit_behind_request_oracle())
+    if (obj.get('case') or {}).get('kind') == 'awaitable-credit':
+        return bool(awaitable_credit_oracle())
     if 'rx_case' in (obj.get('case') or {}):
         from harness.props import c20
         return bool(c20.oracle(c20.run_case(obj['case']['rx_case'])))
@@ -503,4 +507,41 @@ def credit_behind_request_oracle():
                 if r['elements'] != 3:
                     out.append({'what': 'credit granted from on_subscribe was lost: %d of 3 elements delivered' % r['elements'],
                                 'credit_case': [permits, lenreq, channel, n], 'wire': repr(r['wire'])[:300]})
+    return out
+
+
+# ---------------------------------------------------------------------------------------------
+# AwaitableRSocket: the limit_rate an application passes is the credit it grants — in the request frame and in every refill
+
+def awaitable_credit_oracle():
+    from harness.props import c08
+    out = []
+    n = 0
+    for kind in ('rs', 'rc'):
+        for limit in (1, 2, 3, 5):
+            for n_elems in (limit - 1, limit, 2 * limit + 1):
+                n += 1
+                case = [kind, max(n_elems, 1), limit, n % 2 == 0, n % 3 == 0, 500 + n]
+                r = c08.run_collector(*case)
+                granted = 0
+                bad = None
+                delivered = 0
+                for d, fr in r['events']:
+                    if fr.get('sid') != 1:
+                        continue
+                    if d == 'out' and fr['t'] in ('RequestStream', 'RequestChannel', 'RequestN'):
+                        if fr['n'] != limit:
+                            bad = '%s carries n=%d, the application granted limit_rate=%d' % (fr['t'], fr['n'], limit)
+                            break
+                        granted += fr['n']
+                    elif d == 'in' and fr['t'] == 'Payload' and fr.get('next'):
+                        delivered += 1
+                        if delivered > granted:
+                            bad = 'element %d arrived with %d granted' % (delivered, granted)
+                            break
+                if bad is None and not r['done']:
+                    bad = 'the awaitable did not complete'
+                if bad:
+                    out.append({'what': 'AwaitableRSocket.%s(limit_rate=%d): %s' % ('request_stream' if kind == 'rs' else 'request_channel', limit, bad),
+                                'kind': 'awaitable-credit', 'awaitable_case': case})
     return out
